@@ -99,11 +99,20 @@ def run(ctx):
             out |= set(ex.extra.get("exact_editions", [])) | set(ex.extra.get("variation_editions", []))
         return out
     shared = [R for R in fam if len({e.short_name for e in eds_of(R)}) < len(eds_of(R))]
-    strings = fam if th else sorted(set(rng.sample(fam, 400)) | set(shared))
+    # nominative reporters (a second, volume-less pattern matches inside the written citation: D18) always included
+    from eyecite.tokenizers import NOMINATIVE_REPORTER_NAMES
+    nomi = [R for R in fam if R in NOMINATIVE_REPORTER_NAMES]
+    strings = fam if th else sorted(set(rng.sample(fam, 400)) | set(shared) | set(nomi))
     if th:
         ctx.exhaustive["minimal: every database string of the $full_cite family x 2 forms"] = 2 * len(fam)
+    pairs = []
     for R in strings:
-        vol, page = rng.choice([1, 2, 12, 347, 550]), rng.choice([1, 7, 99, 1955])
+        # volumes of one, two and three digits for the nominative reporters (their volume-less pattern takes at
+        # most two digits), one sampled volume otherwise
+        for v_ in ([1, 12, 347] if R in nomi else [rng.choice([1, 2, 12, 347, 550])]):
+            pairs.append((R, v_))
+    for R, vol in pairs:
+        page = rng.choice([1, 7, 99, 1955])
         pre = rng.choice(["See ", "", "(", "In "])
         for short in (False, True):
             core_ = f"{vol} {R} at {page}" if short else f"{vol} {R} {page}"
